@@ -174,6 +174,14 @@ pub struct World {
     pub sched: SchedSpec,
     #[serde(default)]
     pub note: String,
+    /// process-wide `log` verbosity while this world runs (what RUST_LOG sets in the front ends):
+    /// 3 = Info (default), 4 = Debug, 5 = Trace. Records above Info are formatted but not observed.
+    #[serde(default = "default_log_level")]
+    pub log_level: u8,
+}
+
+pub fn default_log_level() -> u8 {
+    3
 }
 
 impl World {
@@ -185,6 +193,7 @@ impl World {
             jobs: vec![job],
             sched: SchedSpec::Sequential,
             note: String::new(),
+            log_level: 3,
         }
     }
 }
